@@ -175,6 +175,8 @@ class QCow2(AlignedStream):
 
         offset = self.header.snapshots_offset
         for _ in range(self.header.nb_snapshots):
+            # Snapshot table entries are aligned to 8 bytes
+            offset = (offset + 7) & ~7
             snapshots.append(QCow2Snapshot(self, offset))
             offset += snapshots[-1].entry_size
 
